@@ -64,7 +64,8 @@ package keeper
 //@   let known    = present(tibc[clientState(from)])
 //@   let proved   = exported.VerifiedCommit(clienttypes.csDecode(val(tibc[clientState(from)])), tibc, from, now(), proofHeight.RevisionNumber, proofHeight.RevisionHeight,
 //@                                          proof, p.SourceChain, p.DestinationChain, p.Sequence, bytes(sha256(str(p.Data))))
-//@   let pre      = valid && fresh && known && proved
+//@   let active   = exported.statusOf(clienttypes.csDecode(val(tibc[clientState(from)])), tibc, from, now()) == exported.Active
+//@   let pre      = valid && fresh && known && active && proved
 //@   let onRelay  = p.RelayChain == me
 //@   let auth     = routingkeeper.routeAllowed(tibc[routingRules()], p.SourceChain, p.DestinationChain, p.Port)
 //@   let dstKnown = present(tibc[clientState(p.DestinationChain)])
@@ -133,7 +134,8 @@ package keeper
 //@   let known   = present(tibc[clientState(from)])
 //@   let proved  = exported.VerifiedAck(clienttypes.csDecode(val(tibc[clientState(from)])), tibc, from, now(), proofHeight.RevisionNumber, proofHeight.RevisionHeight,
 //@                                      proof, p.SourceChain, p.DestinationChain, p.Sequence, bytes(sha256(str(acknowledgement))))
-//@   let pre     = valid && held && known && proved
+//@   let active  = exported.statusOf(clienttypes.csDecode(val(tibc[clientState(from)])), tibc, from, now()) == exported.Active
+//@   let pre     = valid && held && known && active && proved
 //@   let onRelay = p.RelayChain == me
 //@   let srcKnown = present(tibc[clientState(p.SourceChain)])
 //@   let dropped = old(tibc)[commit(p.SourceChain, p.DestinationChain, p.Sequence) := none]
@@ -176,7 +178,8 @@ package keeper
 //@   let known   = present(tibc[clientState(from)])
 //@   let proved  = exported.VerifiedClean(clienttypes.csDecode(val(tibc[clientState(from)])), tibc, from, now(), proofHeight.RevisionNumber, proofHeight.RevisionHeight,
 //@                                        proof, s, d, cp.Sequence)
-//@   let pre     = valid && known && proved
+//@   let active  = exported.statusOf(clienttypes.csDecode(val(tibc[clientState(from)])), tibc, from, now()) == exported.Active
+//@   let pre     = valid && known && active && proved
 //@   let onRelay = cp.RelayChain == me
 //@   let dstKnown = present(tibc[clientState(d)])
 //@   requires seqbound: mx <u MAXU64
